@@ -218,6 +218,13 @@ impl<R: Read> BufRead for FixedReader<'_, R> {
             return Ok(&[]);
         }
         let buf = self.inner.fill_buf()?;
+        if buf.is_empty() {
+            // same as `read`: the stream ended before the declared length
+            return Err(io::Error::new(
+                ErrorKind::UnexpectedEof,
+                "fixed body truncated",
+            ));
+        }
         let len = min(buf.len(), self.remaining);
         Ok(&buf[..len])
     }
